@@ -131,6 +131,14 @@ theorem phase_norm_compose (N : Nat) (hN : 0 < N) (rb ab S : Nat) (s : List Poly
   rw [ι_polyScale, ι_add N _ _ (by simp [polyScale, hErr]), ι_polyScale, ι_valP_phase_rows' N hN ab S s acc hne hwf] at h'
   exact h'
 
+/-- the normalisation relation under `ι` (no change of the accumulator's presentation) -/
+theorem phase_norm_ι (N : Nat) (rb ab : Nat) (s : List Poly) (res acc : List Col) (A B : Int) (Err : Poly) (hErr : Err.length = N)
+    (h : polyScale A (valP rb N (phase s (Ks.mkCt rb N res))) = polyAdd (polyScale B (valP ab N (phase s (Ks.mkCt ab N acc)))) Err) :
+    (A : R N) * ι N (valP rb N (phase s (Ks.mkCt rb N res))) = (B : R N) * ι N (valP ab N (phase s (Ks.mkCt ab N acc))) + ι N Err := by
+  have h' := congrArg (ι N) h
+  rw [ι_polyScale, ι_add N _ _ (by simp [polyScale, hErr]), ι_polyScale] at h'
+  exact h'
+
 theorem cnvByConstCol_wf (N S hi : Nat) (x : Col) (b : List Int) (hx : ∀ l ∈ x, l.length = N) : ColWF N S (cnvByConstCol N S hi x b) := by
   refine ⟨by simp [cnvByConstCol], ?_⟩
   intro l hl
